@@ -463,7 +463,7 @@ Proof.
   destruct (negb okk && negb (kind =? 1)); [exact Hs2|].
   destruct (mem c (closed s2) || mem c (wfail s2)) eqn:Ew; [exact Hs2|].
   apply orb_false_iff in Ew. destruct Ew as [Ew1 Ew2].
-  destruct (isCtl && c_auth r' && (0 <? c_cid r')) eqn:Eb; [|exact Hs2].
+  destruct (okk && isCtl && c_auth r' && (0 <? c_cid r')) eqn:Eb; [|exact Hs2].
   cbn [fst]. apply andb_true_iff in Eb. destruct Eb as [_ Ex]. apply N.ltb_lt in Ex.
   destruct (get (c_cid r') (idx s2)) as [o|] eqn:Eo.
   - destruct (o =? c) eqn:Eoc.
